@@ -384,3 +384,81 @@ fn events_mirror_the_wire_exactly() {
         }
     }
 }
+
+/// The Verus units cstate4 / cstate5 ASSUME a contract for the `fixedbitset` crate (contains / insert / set over a
+/// Seq<bool> view, `insert` / `set` panic outside the capacity).  This checks the assumed contract against the
+/// crate as compiled, exhaustively for small capacities and with probes at the real table sizes.
+// @native props=C02,C07,C10 tier=quick fn=fixedbitset::FixedBitSet::{contains,insert,set,len,with_capacity}
+#[test]
+fn fixedbitset_agrees_with_the_assumed_contract() {
+    let name = "fixedbitset::FixedBitSet#assumed_contract_of_contains_insert_set";
+    let mut cases = 0u64;
+    let mut fail: Option<String> = None;
+    let prev = std::panic::take_hook();
+    std::panic::set_hook(Box::new(|_| {}));
+    // op code: 0..cap+1 = insert(i), then set(i,false), set(i,true) — index cap is out of range and must panic
+    'outer: for cap in 0usize..=4 {
+        let nops = 3 * (cap + 1);
+        for len in 0..=3u32 {
+            for code in 0..(nops as u64).pow(len) {
+                cases += 1;
+                let script: Vec<usize> = (0..len).map(|k| ((code / (nops as u64).pow(k)) % nops as u64) as usize).collect();
+                let mut b = FixedBitSet::with_capacity(cap);
+                let mut model = vec![false; cap];
+                for op in script.iter() {
+                    let (kind, i) = (op / (cap + 1), op % (cap + 1));
+                    let mut b2 = b.clone();
+                    let r = std::panic::catch_unwind(move || {
+                        match kind { 0 => b2.insert(i), 1 => b2.set(i, false), _ => b2.set(i, true) }
+                        b2
+                    });
+                    match r {
+                        Ok(nb) => {
+                            if i >= cap {
+                                fail = Some(format!("input=[capacity={} script={:?}] detail=[op on bit {} outside the capacity did not panic (the assumed precondition would be unnecessary, the view would be wrong)]", cap, script, i));
+                                break 'outer;
+                            }
+                            model[i] = kind != 1;
+                            b = nb;
+                        }
+                        Err(_) => {
+                            if i < cap {
+                                fail = Some(format!("input=[capacity={} script={:?}] detail=[op on bit {} inside the capacity panicked]", cap, script, i));
+                                break 'outer;
+                            }
+                        }
+                    }
+                    if b.len() != cap || (0..cap + 3).any(|j| b.contains(j) != (j < cap && model[j])) {
+                        fail = Some(format!("input=[capacity={} script={:?}] detail=[view {:?} differs from model {:?} or len {} != {}]", cap, script, (0..cap).map(|j| b.contains(j)).collect::<Vec<_>>(), model, b.len(), cap));
+                        break 'outer;
+                    }
+                }
+            }
+        }
+    }
+    // the real table sizes: every bit settable and readable, neighbours untouched, nothing beyond the capacity
+    if fail.is_none() {
+        for cap in [101usize, 65536] {
+            let mut b = FixedBitSet::with_capacity(cap);
+            for i in [0usize, 1, 31, 32, 33, 63, 64, 65, cap / 2, cap - 2, cap - 1] {
+                cases += 1;
+                b.insert(i);
+                let ok1 = b.contains(i) && (i == 0 || !b.contains(i - 1)) && (i + 1 >= cap || !b.contains(i + 1)) && !b.contains(cap) && !b.contains(cap + 64);
+                b.set(i, false);
+                let ok2 = !b.contains(i) && b.count_ones(..) == 0 && b.len() == cap;
+                if !(ok1 && ok2) {
+                    fail = Some(format!("input=[capacity={} bit={}] detail=[insert/set/contains disagree with the Seq<bool> view]", cap, i));
+                    break;
+                }
+            }
+        }
+    }
+    std::panic::set_hook(prev);
+    match fail {
+        None => println!("VERIF-OBLIGATION {} props=C02,C07,C10 bound=\"capacities 0..=4, all scripts of <= 3 insert/set operations (out-of-range index included), plus boundary bits at capacities 101 and 65536\" cases={} ok", name, cases),
+        Some(f) => {
+            println!("VERIF-FAIL {} props=C02,C07,C10 {}", name, f);
+            panic!("{}", f);
+        }
+    }
+}
